@@ -27,7 +27,7 @@ type Pool struct {
 }
 
 func NewPool(bank *Bank, names ...string) (*Pool, error) {
-	pl := &Pool{Bank: bank, FeasTimeout: 20 * time.Second, DecideTimeout: 60 * time.Second, CrossTimeout: 20 * time.Second, CrossCheck: true}
+	pl := &Pool{Bank: bank, FeasTimeout: 20 * time.Second, DecideTimeout: 60 * time.Second, CrossTimeout: 10 * time.Second, CrossCheck: true}
 	for _, n := range names {
 		p, err := StartProc(n, bank)
 		if err != nil {
@@ -72,50 +72,101 @@ func (pl *Pool) Feasible(asserts []*Term, wantModel bool) (Verdict, *Model) {
 	return Unknown, nil
 }
 
-// Decide is the verdict-bearing query.
+// Decide is the verdict-bearing query: all solvers are started on it at once,
+// the first definite answer is taken, and the others get CrossTimeout to
+// confirm it. A different definite answer is a disagreement (Unknown + entry in
+// Disagreements). Solvers still running after the grace period are killed and
+// restarted lazily.
 func (pl *Pool) Decide(asserts []*Term, wantModel bool) (Verdict, *Model) {
 	pl.Decided++
-	first := -1
-	var v Verdict
-	var m *Model
-	for i, p := range pl.Procs {
-		v, m = p.Check(asserts, pl.DecideTimeout, wantModel)
-		if v != Unknown {
-			first = i
-			break
-		}
+	type ans struct {
+		i int
+		v Verdict
+		m *Model
 	}
-	if first < 0 {
-		pl.Inconclusive++
-		return Unknown, nil
-	}
-	if first > 0 {
-		pl.Fallbacks++
-	}
-	if pl.CrossCheck && len(pl.Procs) > 1 {
-		confirmed := false
-		for i, p := range pl.Procs {
-			if i == first {
-				continue
-			}
-			v2, _ := p.Check(asserts, pl.CrossTimeout, false)
-			if v2 == Unknown {
-				continue
-			}
-			if v2 != v {
-				pl.Disagreements = append(pl.Disagreements, fmt.Sprintf("%s=%v %s=%v", pl.Procs[first].Name, v, p.Name, v2))
-				return Unknown, nil
-			}
-			confirmed = true
-			break
-		}
-		if confirmed {
-			pl.CrossChecked++
+	n := len(pl.Procs)
+	if n == 1 || !pl.CrossCheck {
+		v, m := pl.Feasible(asserts, wantModel)
+		if v == Unknown {
+			pl.Inconclusive++
 		} else {
 			pl.DecidedByOne++
 		}
+		return v, m
+	}
+	// the first two solvers race; further ones are fall-backs
+	if n > 2 {
+		n = 2
+	}
+	ch := make(chan ans, n)
+	for i, p := range pl.Procs[:n] {
+		go func(i int, p *Proc) {
+			v, m := p.Check(asserts, pl.DecideTimeout, wantModel)
+			ch <- ans{i, v, m}
+		}(i, p)
+	}
+	var first *ans
+	confirmed := false
+	got := 0
+	var grace <-chan time.Time
+	running := map[int]bool{}
+	for i := range pl.Procs[:n] {
+		running[i] = true
+	}
+loop:
+	for got < n {
+		select {
+		case a := <-ch:
+			got++
+			delete(running, a.i)
+			if a.v == Unknown {
+				continue
+			}
+			if first == nil {
+				aa := a
+				first = &aa
+				grace = time.After(pl.CrossTimeout)
+				continue
+			}
+			if a.v != first.v {
+				pl.Disagreements = append(pl.Disagreements, fmt.Sprintf("%s=%v %s=%v", pl.Procs[first.i].Name, first.v, pl.Procs[a.i].Name, a.v))
+				first = nil
+				break loop
+			}
+			confirmed = true
+			break loop
+		case <-grace:
+			break loop
+		}
+	}
+	// stop stragglers: interrupting a query means killing the process
+	for i := range running {
+		pl.Procs[i].Kill()
+	}
+	for got < n {
+		<-ch
+		got++
+	}
+	if first == nil && len(pl.Disagreements) == 0 {
+		for i := n; i < len(pl.Procs); i++ {
+			v, m := pl.Procs[i].Check(asserts, pl.DecideTimeout, wantModel)
+			if v != Unknown {
+				first = &ans{i, v, m}
+				break
+			}
+		}
+	}
+	if first == nil {
+		pl.Inconclusive++
+		return Unknown, nil
+	}
+	if confirmed {
+		pl.CrossChecked++
 	} else {
 		pl.DecidedByOne++
 	}
-	return v, m
+	if pl.Procs[first.i].Name != pl.Procs[0].Name {
+		pl.Fallbacks++
+	}
+	return first.v, first.m
 }
